@@ -32,7 +32,7 @@
 From Coq Require Import ZArith List Bool.
 From PTK Require Import Lib.Sx Model.C20_StdoutProxy
   Proofs.C20_Queue Proofs.C20_Chain Proofs.C20_Order Proofs.C20_Refuted Proofs.C20_Progress
-  Proofs.C20_Patch Proofs.C20_Terminal Proofs.C20_Lifecycle Proofs.C20_LoopProgress.
+  Proofs.C20_Patch Proofs.C20_Terminal Proofs.C20_Lifecycle Proofs.C20_LoopProgress Proofs.C20_Fair.
 Import ListNotations.
 Open Scope Z_scope.
 
@@ -370,3 +370,47 @@ Theorem C20_loop_progress_is_schedule : forall s, LP s ->
   lquiet s \/ exists l, enabled s l = true /\ lnext s = step s l.
 Proof. exact lnext_is_step. Qed.
 Print Assumptions C20_loop_progress_is_schedule.
+
+(* round 7: cursor position requests are keyed on the code's condition (not is_done; the input
+   queue is empty at the modelled call sites), not on _is_running: in the window between exit()
+   and run_async resuming (LAppDone .. LAppExit) a print is still bracketed and redrawn but
+   makes no request.  All theorems above are proved over the model with this window. *)
+Example C20_example_exit_window :
+  all_enabled (init2 true true) w_window = true /\
+  cprq (cp (run (init2 true true) w_window)) = O /\ app (en (run (init2 true true) w_window)) = false /\
+  brk_run (out (run (init2 true true) w_window)) = Some false /\
+  out_text (run (init2 true true) w_window) = ta /\
+  all_enabled (init2 true true) w_nowindow = false /\
+  cprq (cp (run (init2 true true) w_nowindow)) = 1%nat /\ app (en (run (init2 true true) w_nowindow)) = true.
+Proof. exact window_example. Qed.
+Print Assumptions C20_example_exit_window.
+
+(* round 7: the two progress theorems composed with arbitrary writers.  From EVERY reachable
+   state whose loop is not closed (any threads, any writes so far, any interleaving) there is a
+   finite continuation of ENABLED labels - one flush(), the flush thread's own steps, the loop
+   side's own steps (cont_label: no life-cycle label, no further write) - after which the loop
+   side is quiet, the flush thread is idle on an empty queue or has returned after close(),
+   _buffer is empty, nothing is unflushed in the Output, and (flush thread not closed) the state
+   is drained. *)
+Theorem C20_fair_drain : forall c r ls,
+  lclosed (en (run (init2 c r) ls)) = false ->
+  exists ks,
+    all_enabled (run (init2 c r) ls) ks = true /\ forallb cont_label ks = true /\
+    let s' := run (init2 c r) (ls ++ ks) in
+    lquiet s' /\ settled s' /\ buf (px s') = [] /\ pending_text s' = [] /\
+    (fth (px s') = FIdle -> drained s').
+Proof. exact fair_drain. Qed.
+Print Assumptions C20_fair_drain.
+
+(* ... and when the run respects loop validity, after that continuation the TERMINAL has every
+   write call's text exactly once, whole, in lock order: under a fair schedule every write
+   reaches the terminal. *)
+Theorem C20_fair_terminal : forall c r ls,
+  valid (init2 c r) ls = true -> lclosed (en (run (init2 c r) ls)) = false ->
+  exists ks,
+    all_enabled (run (init2 c r) ls) ks = true /\ forallb cont_label ks = true /\
+    let s' := run (init2 c r) (ls ++ ks) in
+    pending_text s' = [] /\
+    (fth (px s') = FIdle -> term_text s' = concat (map snd (writes ls))).
+Proof. exact fair_terminal. Qed.
+Print Assumptions C20_fair_terminal.
